@@ -12,6 +12,8 @@ VALUES = [0, 1, 42, M60 - 1, M60, M60 + 5, (1 << 63) - 1, 1 << 63, M64 - 1, M64 
 def gen_v(rng, nsheps):
     kind = rng.weighted([("a", 5), ("s", 5), ("n", 1), ("v", 1)])
     variant = rng.below(5)
+    if kind == "s" and rng.chance(1, 4):
+        variant = 5            # qthread_fork_copyargs_to(..., syncvar_t *ret, shep)
     shep = rng.below(nsheps)
     prefull = rng.below(2)
     value = rng.choice(VALUES) if rng.chance(3, 4) else rng.range(0, M64 - 1)
@@ -163,7 +165,10 @@ def run_config(ctx, exe, drv, sheps, workers, cases):
             impl[k] = (impl[k] or []) + ([tag] if tag not in (impl[k] or []) else [])
             env = core.qenv(sheps, workers, stack=65536)
             for j in range(k + 1, len(cases)):
-                rcj, oj, ej = core.run_lines(exe, case_lines(cases[j]) + ["Q"], timeout=400, env=env)
+                if j > k + 4:
+                    impl[j] = None      # not run (bounded re-runs after a failure)
+                    continue
+                rcj, oj, ej = core.run_lines(exe, case_lines(cases[j]) + ["Q"], timeout=200, env=env)
                 rj = split_out([cases[j]], oj[1:])
                 impl[j] = rj[0] if rj[0] is not None else []
                 if rcj != 0:
@@ -179,7 +184,9 @@ CORPUS = [dict(t="V", kind="a", variant=0, shep=0, prefull=1, value=M64 - 1),
           dict(t="V", kind="s", variant=0, shep=0, prefull=1, value=M60 + 5),
           dict(t="V", kind="s", variant=3, shep=0, prefull=0, value=M64 - M60 - 3),
           dict(t="V", kind="a", variant=4, shep=0, prefull=1, value=7),
-          dict(t="V", kind="n", variant=0, shep=0, prefull=0, value=1234),
+          dict(t="V", kind="n", variant=0, shep=0, prefull=0, value=1234),      # witness of the defect fixed by /repo 53168f8
+          dict(t="V", kind="s", variant=5, shep=0, prefull=1, value=42),        # witness of the defect fixed by /repo f9ee21a
+          dict(t="V", kind="s", variant=5, shep=0, prefull=0, value=M64 - 1),
           dict(t="V", kind="v", variant=0, shep=0, prefull=0, value=5),
           dict(t="T", nodes=[dict(id=0, parent=-1, kind="t"), dict(id=1, parent=0, kind="m"), dict(id=2, parent=0, kind="s"),
                              dict(id=3, parent=2, kind="m"), dict(id=4, parent=2, kind="s"), dict(id=5, parent=4, kind="m")],
@@ -205,6 +212,8 @@ def run(ctx):
         cases = list(CORPUS) + [gen_v(r2, sheps) for _ in range(nv)] + [gen_tree(r2, quick) for _ in range(nt)]
         impl, model = run_config(ctx, exe, drv, sheps, workers, cases)
         for c, il, ml in zip(cases, impl, model):
+            if il is None:
+                continue
             cd = dict(config=[sheps, workers], case=c)
             evals += 1 if c["t"] == "V" else len(c["order"])
             key = "V:%s:var%d:pre%d" % (c["kind"], c["variant"], c["prefull"]) if c["t"] == "V" else "tree:%d" % len(c["nodes"])
